@@ -87,6 +87,20 @@ class Node:
         return 'u'
 
 
+class Doc:
+    """a leaf object without a tpValues method (a document among folders): the tag supports it through hasattr()"""
+    kids = ()
+
+    def __init__(self, nid):
+        self.nid = nid
+
+    def tpId(self):
+        return self.nid
+
+    def tpURL(self):
+        return 'u'
+
+
 class Resp:
     def __init__(self):
         self.cookies = {}
@@ -101,17 +115,18 @@ TEXT = re.compile(r'\[\[(.*?)\]\]', re.S)
 _tmpl = []
 
 
-def render(root, cookie, param):
+def render(root, cookie, param, assume=False):
     from DocumentTemplate import HTML
     if not _tmpl:
         _tmpl.append(HTML('<dtml-tree>[[<dtml-var nid>]]</dtml-tree>'))
+        _tmpl.append(HTML('<dtml-tree assume_children=1>[[<dtml-var nid>]]</dtml-tree>'))
     resp = Resp()
     md = {'URL': 'http://host/app/tree', 'RESPONSE': resp}
     if cookie is not None:
         md['tree-s'] = cookie
     if param:
         md[param[0]] = param[1]
-    out = _tmpl[0](root, md)
+    out = _tmpl[1 if assume else 0](root, md)
     rows = []
     for m in ROW.finditer(out):
         cell = m.group(1)
@@ -163,14 +178,16 @@ def gen_trees(tier, r):
     return shapes
 
 
-def label(shape, names):
-    """shape (nested lists of children) -> Node tree with ids from names (preorder)"""
+def label(shape, names, docs=False):
+    """shape (nested lists of children) -> Node tree with ids from names (preorder); with docs, leaves lack tpValues"""
     counter = itertools.count()
 
-    def mk(kids):
+    def mk(kids, top=False):
         i = next(counter)
+        if docs and not kids and not top:
+            return Doc(names(i))
         return Node(names(i), [mk(k) for k in kids])
-    return mk(shape)
+    return mk(shape, True)
 
 
 def to_model(node, idmap):
@@ -183,13 +200,15 @@ def all_nodes(node):
         yield from all_nodes(k)
 
 
-def expected_rows(root, expanded):
+def expected_rows(root, expanded, assume=False):
     rows = []
 
     def walk(node, path):
         p = path + (node.nid,)
-        has = bool(node.kids)
-        exp = has and p in expanded
+        # with assume_children a node that has not been expanded is ASSUMED to have children and carries an expand link;
+        # once expanded, the tag knows: a childless node then shows nothing below it and carries no link any more
+        has = bool(node.kids) or (assume and p not in expanded)
+        exp = bool(node.kids) and p in expanded
         rows.append((node.nid, has, exp, p))
         if exp:
             for k in node.kids:
@@ -212,31 +231,31 @@ def state_paths(state):
     return out
 
 
-def run_history(res, root, history_picker, steps, start, r):
+def run_history(res, root, history_picker, steps, start, r, assume=False):
     """drive the real tag through `steps` clicks; returns (model request, impl snapshots)"""
     idmap = {n.nid: i for i, n in enumerate(all_nodes(root))}
     expanded = set()
     if start == 'expand_all':
-        rows, cookie = render(root, None, ('expand_all', 1))
+        rows, cookie = render(root, None, ('expand_all', 1), assume)
         expanded = {p for p in paths_with_kids(root)}
     else:
-        rows, cookie = render(root, None, None)
+        rows, cookie = render(root, None, None, assume)
     snaps = [(rows, cookie)]
     clicks = []
-    check_snapshot(res, root, rows, cookie, expanded, clicks)
+    check_snapshot(res, root, rows, cookie, expanded, clicks, assume)
     for _ in range(steps):
         linked = [row for row in rows if 'kind' in row]
         choice = history_picker(linked, rows)
         if choice is None:
             break
         if choice in ('expand_all', 'collapse_all'):
-            rows, cookie = render(root, cookie, (choice, 1))
+            rows, cookie = render(root, cookie, (choice, 1), assume)
             expanded = {p for p in paths_with_kids(root)} if choice == 'expand_all' else set()
             clicks.append({'kind': choice})
         else:
             path = tuple(choice['path'])
             kind = 'e' if choice['kind'] == 'tree-e' else 'c'
-            rows, cookie = render(root, cookie, (choice['kind'], choice['enc']))
+            rows, cookie = render(root, cookie, (choice['kind'], choice['enc']), assume)
             if kind == 'e':
                 expanded.add(path)
             else:
@@ -244,7 +263,7 @@ def run_history(res, root, history_picker, steps, start, r):
             clicks.append({'kind': kind, 'path': [idmap[x] for x in path]})
         res.evaluations += 1
         snaps.append((rows, cookie))
-        check_snapshot(res, root, rows, cookie, expanded, clicks)
+        check_snapshot(res, root, rows, cookie, expanded, clicks, assume)
     req = {'op': 'tree', 'start': start, 'tree': to_model(root, idmap), 'clicks': clicks}
     return req, snaps, idmap
 
@@ -263,11 +282,13 @@ def paths_with_kids(root):
     return out
 
 
-def check_snapshot(res, root, rows, cookie, expanded, clicks):
+def check_snapshot(res, root, rows, cookie, expanded, clicks, assume=False):
     """the property on the implementation, against the set-of-paths reference"""
     def fail(what):
-        res.oracle_fail.append({'case': {'tree': repr_tree(root), 'clicks': clicks}, 'what': what})
-    want = expected_rows(root, expanded)
+        res.oracle_fail.append({'case': {'tree': repr_tree(root), 'clicks': clicks, 'assume_children': assume,
+                                         'leaves_without_tpValues': any(isinstance(n, Doc) for n in all_nodes(root))},
+                                'what': what})
+    want = expected_rows(root, expanded, assume)
     got = [(row['id'], 'kind' in row, row.get('kind') == 'tree-c', tuple(row['path']) if 'path' in row else None)
            for row in rows]
     if [g[0] for g in got] != [w[0] for w in want]:
@@ -311,7 +332,7 @@ def run(res, tier, have_driver):
     names_odd = lambda i: ['r', 'nöde é', 'x' * 60, 'a-b', '0', 'Z z', 'ü', 'q'][i % 8] + str(i)  # noqa
     depth = 4 if tier == 'quick' else 5
     for si, shape in enumerate(shapes):
-        root = label([shape] if False else shape, names_odd if si % 3 == 0 else names_plain)
+        root = label([shape] if False else shape, names_odd if si % 3 == 0 else names_plain, docs=si % 4 == 1)
         res.count('tree_nodes=%d' % sum(1 for _ in all_nodes(root)))
         # breadth-first exhaustive histories (indices into the linked rows), bounded fan-out
         frontier = [[]]
@@ -342,7 +363,7 @@ def run(res, tier, have_driver):
                 budget[0] -= 1
                 kids.append(rand_shape(depth_left - 1, budget))
             return kids
-        root = label(rand_shape(5, [r.randint(5, 25)]), names_odd if t % 2 else names_plain)
+        root = label(rand_shape(5, [r.randint(5, 25)]), names_odd if t % 2 else names_plain, docs=t % 3 == 0)
 
         def picker(linked, rows):
             c = r.random()
@@ -355,6 +376,21 @@ def run(res, tier, have_driver):
         reqs.append((req, snaps, idmap))
         res.nt(('random', t))
         res.count('random_histories')
+    # assume_children: every node has a link; expanding a childless node changes only the state (oracle only: outside the model)
+    for t in range(60 if tier == 'quick' else 500):
+        def rand_shape2(depth_left, budget):
+            kids = []
+            while budget[0] > 0 and depth_left > 0 and r.random() < 0.6:
+                budget[0] -= 1
+                kids.append(rand_shape2(depth_left - 1, budget))
+            return kids
+        root = label(rand_shape2(4, [r.randint(3, 12)]), names_plain, docs=t % 2 == 0)
+
+        def picker2(linked, rows):
+            return r.choice(linked) if linked else None
+        run_history(res, root, picker2, 14, 'init', r, assume=True)
+        res.nt(('assume_children', t))
+        res.count('assume_children_histories')
     res.sample({'model_request': reqs[5][0], 'impl_rows_after_last_click': reqs[5][1][-1][0]})
     res.sample({'model_request': reqs[-1][0]})
     if have_driver:
